@@ -7,6 +7,8 @@ package main
 
 import (
 	"encoding/json"
+	"runtime/pprof"
+	"sync/atomic"
 	"fmt"
 	"os"
 	"os/exec"
@@ -102,9 +104,9 @@ func tierFor(prop, tier string) tierCfg {
 			w = x
 		}
 	}
-	c := tierCfg{Workers: w, RunsPerW: 40, ShrinkSec: 40, MaxReplays: 3}
+	c := tierCfg{Workers: w, RunsPerW: 100, ShrinkSec: 40, MaxReplays: 3}
 	if tier == "thorough" {
-		c.RunsPerW, c.ShrinkSec, c.MaxReplays = 600, 120, 4
+		c.RunsPerW, c.ShrinkSec, c.MaxReplays = 1500, 120, 4
 	}
 	if f := tierScale[prop]; f > 0 {
 		c.RunsPerW = int(float64(c.RunsPerW) * f)
@@ -132,9 +134,27 @@ func workerMain(prop, tier string, worker int, baseSeed uint64, out string) int 
 	known := loadKnown()
 	unknownReplays := 0
 	exit := 0
+	// watchdog: a single run that does not finish is harness trouble (exit 2), never a violation
+	var curSeed atomic.Uint64
+	var curStart atomic.Int64
+	go func() {
+		for {
+			time.Sleep(time.Second)
+			st := curStart.Load()
+			if st != 0 && time.Since(time.Unix(0, st)) > 150*time.Second {
+				fmt.Fprintf(os.Stderr, "WATCHDOG: run with seed %d did not finish within 150s\n", curSeed.Load())
+				pprof.Lookup("goroutine").WriteTo(os.Stderr, 2)
+				rep.HarnessErr = fmt.Sprintf("watchdog: run with seed %d did not finish within 150s", curSeed.Load())
+				writeJSON(out, rep)
+				os.Exit(2)
+			}
+		}
+	}()
 	for i := 0; i < tc.RunsPerW; i++ {
 		seed := NewRng(baseSeed ^ uint64(worker)*0x9e3779b97f4a7c15).Derive(uint64(i)).U64()
 		rep.Seeds = append(rep.Seeds, seed)
+		curSeed.Store(seed)
+		curStart.Store(time.Now().UnixNano())
 		res := runOne(prof, seed)
 		rep.Runs++
 		if res.Stats != nil {
@@ -175,6 +195,7 @@ func workerMain(prop, tier string, worker int, baseSeed uint64, out string) int 
 			rep.Replays = append(rep.Replays, path)
 		}
 	}
+	curStart.Store(0)
 	for k := range states {
 		rep.States = append(rep.States, k)
 	}
